@@ -48,6 +48,18 @@ property predicate is judged there, M = also compared with the Coq model):
                                        element's own range; jaccarddist_array (out=, every element as query), _matrix
                                        (mixed queries x mixed refs, chunksize, ref_indices, mixed queries x SignatureArray),
                                        _pairwise (square, flat, indices); every cell judged (P), query row also (M)
+  jaccarddist_matrix argument forms    matrix: nq queries x nr references in every size relation (more queries than references,
+                                       fewer, square, one query, one reference, no queries, no references) x the container of
+                                       the QUERIES (list, tuple, SignatureList, SignatureArray, SignatureArray view with a
+                                       non-zero base) x the container of the REFERENCES (the same five) x chunksize (None, 1,
+                                       2, 3, nr-1, nr+1: one chunk, several, ragged last chunk; Python int / np.int64) x
+                                       ref_indices (absent / list / intp array, with repeats) x out= (absent / prefilled with
+                                       NaN: the array given AND the array returned are judged); either side of one dtype or of
+                                       element-wise different dtypes (then without the SignatureArray forms); every cell
+                                       (i, j) judged against the pair (queries[i], references[ref_indices[j]]) (P), the pairs
+                                       also sent to the model (M op 205).  The container objects of a case are built once and
+                                       passed to every call of the case (about 120 calls): a cell is judged after each call, so
+                                       anything a call leaves behind in them would show in the next one.
   non-native / non-integer dtypes      malformed-dtype (exact or error)
   NumPy vs Python integers             the two functions take none; bulk passes ref_indices / indices / chunksize both as
                                        Python ints / lists and as NumPy intp arrays / int64 (P)
@@ -57,8 +69,8 @@ property predicate is judged there, M = also compared with the Coq model):
                                        the property); options, file names: the two observed functions have none.
 Layouts, bulk containers, reuse sequences and gen-large sizes are outside the list-based Coq model: the value
 semantics is the same, so form cases are still compared with the model (ops 205/206), gen-large with op 204
-(ratio_f32); bulk, reuse and mutate are judged by the property predicate alone; mixed by the predicate on every cell, and
-its (query, element) pairs are also compared with the model (op 205)."""
+(ratio_f32); bulk, reuse and mutate are judged by the property predicate alone; mixed and matrix by the predicate on every
+cell, and their (query, element) pairs are also compared with the model (op 205)."""
 import itertools
 
 import numpy as np
@@ -79,13 +91,16 @@ RULE = ('pairs of sorted duplicate-free integer arrays x dtype pairs x both argu
         'CALL; non-trivial: at least one mutation and some pair of sets of the case is non-trivial), mixed (collections whose ELEMENTS have different integer types -- narrow first, wide first, same width '
         'signed / unsigned, alternating, all six, first element empty, empty elements of another type, each element at '
         'the top of its own range -- as references, queries and pairwise collections in list / tuple / SignatureList '
-        'form, every cell judged); non-trivial there by the same rule (bulk / reuse: some pair of the case is '
+        'form, every cell judged), matrix (jaccarddist_matrix with more / fewer / as many queries as references, none or one '
+        'of either, queries and references each held in a list / tuple / SignatureList / SignatureArray / SignatureArray '
+        'view, one chunk / several chunks / ragged last chunk, with and without ref_indices and a NaN-prefilled out=: every '
+        'cell of the returned and of the given array judged; non-trivial: some (query, reference) pair is); non-trivial there by the same rule (bulk / reuse: some pair of the case is '
         'non-trivial; mixed: at least two element types differ and some pair is non-trivial)')
 TRUSTED = ['tools/pyx2v.py (Cython subset -> Gallina; C integer / binary32 semantics as documented in its header)',
            'Flocq 4 binary32 model of C float division on this platform (validated bit-for-bit by the run)',
            'harness oracle round_ratio_f32 (exact integer implementation of round-to-nearest-even)',
            'NumPy set operations (intersect1d / union1d on uint64 values) as the counting oracle of the gen-large stream',
-           'Python set arithmetic on the generated value lists as the counting oracle of every cell of the bulk, mixed and '
+           'Python set arithmetic on the generated value lists as the counting oracle of every cell of the bulk, mixed, matrix and '
            'reuse streams (the expected pair of a cell is derived from the harness\'s own index lists)',
            'mutate stream: the current members of a container are the harness\'s own replay of the step list on a Python '
            'list of array objects (_mut_model: built-in list semantics for item / slice assignment, del, insert, append, '
@@ -805,6 +820,123 @@ def k_mixed(ctx, cases):
 		omp_set_num_threads(before)
 
 
+def k_matrix(ctx, cases):
+	"""jaccarddist_matrix over the product of its argument FORMS: nq queries x nr references (every size relation:
+	more queries than references, fewer, square, a single one, none) x the container holding the queries (list,
+	tuple, SignatureList, SignatureArray, SignatureArray view with a non-zero base) x the container holding the
+	references (the same five) x chunk size (None, 1, 2, 3, nr-1, nr+1: one chunk, several chunks, a ragged last chunk)
+	x ref_indices (absent, or a list / index array with repeats) x out= (absent, or given and prefilled with NaN: both
+	the array given and the array returned are judged).  Cell (i, j) must be the property value of the pair
+	(queries[i], references[j]) resp. (queries[i], references[ref_indices[j]]); the pairs are also sent to the model."""
+	from gambit.metric import jaccarddist_matrix
+	from gambit.sigs.base import SignatureArray, SignatureList
+	from gambit._cython.threads import omp_set_num_threads, omp_get_max_threads
+	reqs = []
+	for c in cases:
+		for x, dx in zip(c['qs'], c['qdts']):
+			reqs += [(205, [KIND[dx[0]], int(dx[1]), x, KIND[dy[0]], int(dy[1]), y]) for y, dy in zip(c['rs'], c['rdts'])]
+	small = max([len(x) for c in cases for x in c['qs'] + c['rs']] or [0]) <= 300
+	ans = ctx.model(reqs) if ctx.model_ok and small and reqs else None
+	pos = 0
+	before = omp_get_max_threads()
+	omp_set_num_threads(1)
+	try:
+		for c in cases:
+			qs, qdts, rs, rdts = c['qs'], c['qdts'], c['rs'], c['rdts']
+			nq, nr = len(qs), len(rs)
+			Q = [_arr(x, d) for x, d in zip(qs, qdts)]
+			R = [_arr(x, d) for x, d in zip(rs, rdts)]
+			if any(a.tolist() != x or a.dtype != np.dtype(d) for a, x, d in zip(Q + R, qs + rs, qdts + rdts)):
+				raise RuntimeError('harness: an element does not hold the case values in its own dtype')
+			su = [[_su(x, y) for y in rs] for x in qs]
+			want = np.array([[round_ratio_f32(s, u) if u else 0 for s, u in row] for row in su], dtype=np.uint32).reshape(nq, nr)
+			ctx.case(c, nontrivial=any(0 < len(set(x) & set(y)) < min(len(x), len(y)) for x in qs for y in rs))
+
+			def containers(arrs, dts):
+				"""(name, object holding exactly arrs in order) for every container that can hold them"""
+				d0 = np.dtype(dts[0]) if dts else np.dtype('u8')
+				out = [('list', list(arrs)), ('tuple', tuple(arrs)), ('SignatureList', SignatureList(list(arrs), dtype=d0))]
+				if len(set(dts)) <= 1:
+					pad = [_arr([0, 1, 2], d0.str[1:]), _arr([1], d0.str[1:])]
+					out.append(('SignatureArray', SignatureArray(list(arrs), dtype=d0)))
+					out.append(('SignatureArray[2:-1] (view, non-zero base)',
+					            SignatureArray(pad + list(arrs) + pad[:1], dtype=d0)[2:len(arrs) + 2]))
+				return out
+			perm = c['perm']
+			perms = [None] if perm is None else [None, np.array(perm, dtype=np.intp) if c.get('npidx') else list(perm)]
+			cols = {False: list(range(nr)), True: perm}
+			bad = False
+			k = 0
+			first = None
+			for qn, qc in containers(Q, qdts):
+				for rn, rc in containers(R, rdts):
+					for cs in c['chunks']:
+						for ri in perms:
+							if bad:
+								break
+							k += 1
+							col = cols[ri is not None]
+							exp = want[:, np.array(col, dtype=np.intp)]
+							kw = {}
+							if ri is not None:
+								kw['ref_indices'] = ri
+							if cs is not None:
+								kw['chunksize'] = np.int64(cs) if c.get('npidx') and k % 2 else cs
+							given = None
+							if k % 3:
+								given = kw['out'] = np.full((nq, len(col)), np.float32('nan'), dtype=np.float32)
+							name = (f'jaccarddist_matrix({nq} queries in a {qn} of dtypes {sorted(set(qdts))}, {nr} references in a {rn} of '
+							        f'dtypes {sorted(set(rdts))}, ref_indices={None if ri is None else list(perm)}, chunksize={cs}, '
+							        f'out={"array prefilled with NaN" if given is not None else "None"})')
+							try:
+								ret = jaccarddist_matrix(qc, rc, **kw)
+							except Exception as e:
+								ctx.violation('matrix', c, f'{name} raised {type(e).__name__}: {e}; every signature is a sorted '
+								              f'duplicate-free array of an accepted integer type', impl=type(e).__name__)
+								bad = True
+								break
+							for what, m in (('returned array', ret), ('out= array', given)):
+								if m is None:
+									continue
+								m = np.asarray(m)
+								if m.shape != exp.shape:
+									ctx.violation('matrix', c, f'{name}: {what} has shape {m.shape} for {nq} queries x {len(col)} references',
+									              impl=list(m.shape), spec=[nq, len(col)])
+									bad = True
+									break
+								if m.dtype == np.float32 and np.array_equal(np.ascontiguousarray(m).view(np.uint32), exp):
+									continue
+								for i in range(nq):
+									for j in range(len(col)):
+										msg = _dist_problem(m[i, j], *su[i][col[j]])
+										if msg:
+											ctx.violation('matrix', c, f'{name}: {what}[{i}, {j}] for the pair (query {i} {qs[i]} ({qdts[i]}), '
+											              f'reference {col[j]} {rs[col[j]]} ({rdts[col[j]]})) = {msg}',
+											              impl=[float(v) for v in m.ravel()][:200], spec=list(su[i][col[j]]))
+											bad = True
+											break
+									if bad:
+										break
+								if bad:
+									break
+							if first is None and not bad and ri is None:
+								first = np.ascontiguousarray(ret).view(np.uint32) if np.asarray(ret).dtype == np.float32 else None
+			ctx.extra['matrix_calls'] = ctx.extra.get('matrix_calls', 0) + k
+			if ans is not None and first is not None and not bad:
+				for i in range(nq):
+					for j in range(nr):
+						if ans[pos + i * nr + j] != [0, int(first[i, j])]:
+							ctx.broke('correspondence matrix (jaccarddist)', f'query {qs[i]} ({qdts[i]}) reference {rs[j]} ({rdts[j]}): '
+							          f'impl bits {int(first[i, j])}, model {ans[pos + i * nr + j]}')
+							bad = True
+							break
+					if bad:
+						break
+			pos += nq * nr
+	finally:
+		omp_set_num_threads(before)
+
+
 def k_reuse(ctx, cases):
 	"""the caller keeps ONE pair of buffers (and one out array, one SignatureArray) and overwrites them in place
 	between calls; every call must report the distance of the values present at that call.  Predicate only."""
@@ -1082,7 +1214,7 @@ def _timed(kind, fn):
 
 
 KINDS = {k: _timed(k, f) for k, f in dict(pair=k_pair, dtype=k_dtype, big=k_big, form=k_form, gen=k_gen, bulk=k_bulk,
-                                           reuse=k_reuse, mixed=k_mixed, mutate=k_mutate).items()}
+                                           reuse=k_reuse, mixed=k_mixed, mutate=k_mutate, matrix=k_matrix).items()}
 SHRINK = False
 
 
@@ -1384,6 +1516,56 @@ def _mixed_case(rng, dts, dq, pattern, chunks):
 	return dict(sigs=sigs, dts=list(dts), q=q, dq=dq, perm=perm, chunks=chunks, npidx=rng.random() < 0.3, pattern=pattern)
 
 
+MATRIX_SHAPES = ['more-queries', 'more-queries', 'fewer-queries', 'square', 'one-query', 'one-reference', 'no-queries', 'no-references']
+
+
+def _matrix_case(rng, shape):
+	"""nq query sets and nr reference sets in the size relation `shape`, each side either all of one dtype (so that it
+	can also be held in a SignatureArray) or element-wise of different dtypes; values as in _mixed_case"""
+	if shape == 'more-queries':
+		nr = rng.randint(1, 5)
+		nq = nr + rng.randint(1, 4)
+	elif shape == 'fewer-queries':
+		nq = rng.randint(1, 4)
+		nr = nq + rng.randint(1, 4)
+	elif shape == 'square':
+		nq = nr = rng.randint(2, 5)
+	elif shape == 'one-query':
+		nq, nr = 1, rng.randint(2, 6)
+	elif shape == 'one-reference':
+		nq, nr = rng.randint(2, 6), 1
+	elif shape == 'no-queries':
+		nq, nr = 0, rng.randint(1, 4)
+	else:
+		nq, nr = rng.randint(1, 4), 0
+
+	def dtypes(n, p_uniform):
+		d = rng.choice(DTYPES)
+		return [d] * n if rng.random() < p_uniform else [rng.choice(DTYPES) for _ in range(n)]
+	qdts, rdts = dtypes(nq, 0.8), dtypes(nr, 0.5)
+	m = min(_dmax(d) for d in qdts + rdts)
+	pool = _universe(rng, m, rng.choice(['hug-top', 'hug-top', 'hug-bottom', 'pow2', 'spread']), rng.choice([4, 8, 16]))
+	made = []
+
+	def member(d):
+		x = set(rng.sample(pool, rng.randint(0, len(pool))))
+		if rng.random() < 0.6:
+			x |= _beyond(rng, m, _dmax(d), pool)
+		x = sorted(x)
+		prev = [y for y in made if not y or y[-1] <= _dmax(d)]
+		if prev and rng.random() < 0.12:
+			x = list(rng.choice(prev))
+		if rng.random() < 0.08:
+			x = []
+		made.append(x)
+		return x
+	qs = [member(d) for d in qdts]
+	rs = [member(d) for d in rdts]
+	perm = [rng.randrange(nr) for _ in range(rng.randint(1, nr + 2))] if nr and rng.random() < 0.5 else None
+	chunks = [None] + sorted({1, 2, 3, max(1, nr - 1), nr + 1})
+	return dict(qs=qs, qdts=qdts, rs=rs, rdts=rdts, perm=perm, chunks=chunks, npidx=rng.random() < 0.3, shape=shape)
+
+
 def generate(ctx):
 	rng = ctx.rng
 	ctx.rule(RULE)
@@ -1545,3 +1727,9 @@ def generate(ctx):
 		         shape=rng.choice(['random', 'random', 'nested', 'equal', 'disjoint']), ov=rng.randint(0, 8), strided=rng.random() < 0.3)
 		ctx.count('stream:gen-large')
 		yield 'gen', c
+	# jaccarddist_matrix over its argument forms: size relation of queries / references x container of either side x
+	# chunk size x ref_indices x out=
+	for i in range(ctx.pick(64, 480)):
+		shape = MATRIX_SHAPES[i % len(MATRIX_SHAPES)]
+		ctx.count('stream:matrix-' + shape)
+		yield 'matrix', _matrix_case(rng, shape)
